@@ -199,6 +199,7 @@ type Engine struct {
 	ufFacts   []*Term
 	ufFactSet map[string]bool
 	ipStrOrigin map[string]ipOrigin
+	cutLines  map[string]bool
 }
 
 type HarnessCfg struct {
